@@ -92,6 +92,7 @@ def run(prog, chk):
 
     writers = R.flag_writers()
     mark_base, unmark_base, alloc_fns = [], [], []
+    inline_marks = {}
     allocname = sim['allocate'].name
     for key, (f, ws) in writers.items():
         vals = {v for v, _ in ws}
@@ -101,7 +102,9 @@ def run(prog, chk):
             chk.ob('R06.6', f, f.ln, ok, 'allocation role may only clear the flag (writes %s)' % sorted(vals), key='alloc-clears')
             alloc_fns.append(f)
             continue
-        if len(f.params) == 1 and vals in ({'true'}, {'false'}):
+        l_ = ws[0][1]['l'].get('base') if SX.is_node(ws[0][1].get('l')) else None
+        sub_is_param = SX.is_node(l_) and l_.get('k') == 'index' and SX.is_node(l_.get('i')) and l_['i'].get('kind') == 'param'
+        if len(f.params) == 1 and vals in ({'true'}, {'false'}) and (sub_is_param or vals == {'false'} or f.params[0]['type'] == 'int'):
             g = prog.cfg(f)
             n = [x for x in g.nodes if x.kind == 'assign' and x.e is ws[0][1]]
             # subscript is the parameter
@@ -114,11 +117,37 @@ def run(prog, chk):
                    '%s must set flag[param] under bounds guards only' % f.short, key='role-' + ('mark' if vals == {'true'} else 'unmark'))
             (mark_base if vals == {'true'} else unmark_base).append((f, [0]))
             continue
+        # a measurement whose marking is written in place (the measure sequence extracted into one helper, or expanded where it is
+        # used): `flags[x].measured = true` right after `sim.measure(x)`, skipped only by bounds tests on x — a marking site, not a role
+        if vals == {'true'}:
+            g = prog.cfg(f)
+            cn_ = Canon(prog, f)
+            sites_ok = True
+            found = []
+            for _v, wn in ws:
+                l = SX.strip(wn['l'].get('base'))
+                node_ = [x for x in g.nodes if x.kind == 'assign' and x.e is wn]
+                if not (SX.is_node(l) and l.get('k') == 'index' and node_):
+                    sites_ok = False
+                    break
+                t_ = cn_.text(l['i'])
+                meas = [x for x in g.calls(lambda e: R.is_sim_call(e, (sim['measure'].short,))) if cn_.text(arg(x.e, 0)) == t_ and g.dominates(x, node_[0])]
+                outer_ = {id(ed2) for m_ in meas for _c2, _p2, ed2 in g.guards(m_)}
+                bounds_only = all(_only_bounds_text(ce, l['i'], vec) for ce, pol, ed in g.guards(node_[0]) if id(ed) not in outer_)
+                if not (meas and bounds_only):
+                    sites_ok = False
+                    break
+                found.append((node_[0], t_))
+            if sites_ok and found:
+                inline_marks[f.key] = found
+                continue
         chk.ob('R06.6', f, f.ln, False, 'unexpected writer of %s::%s (values %s)' % (rec['name'].split('::')[-1], flag, sorted(vals)),
                key='writer:' + f.short)
     # role first, today's name second: a role that no function fulfils any more is a violation when the function
     # that used to fulfil it is still there (its effect changed), analysis-broken only when it vanished as well
     for base, nm, what in ((mark_base, 'markMeasured', 'set'), (unmark_base, 'unmarkMeasured', 'clear')):
+        if not base and nm == 'markMeasured' and inline_marks:
+            continue      # every measurement marks in place
         if not base:
             c = [f for f in evfns if f.short == nm and len(f.params) == 1]
             if not c:
@@ -189,7 +218,18 @@ def run(prog, chk):
                         chk.ob('R06.2', f, x.ln, _located(g, x, ENS.inner_establishing(x.e, t, canon), canon), 'ensure-active must report the measure node\'s own line/column',
                                key='measure-loc:' + _sitekey(g, node))
                 mk = [x for x in g.calls() if MARK.establishes_canon(x.e, t, canon)]
-                ok2 = bool(mk) and g.must_follow(node, mk)
+                inl_ = [x for x in g.nodes if x.kind == 'assign' and any(x.e is n_.e and t_ == t for n_, t_ in inline_marks.get(f.key, []))]
+                mk += inl_
+                avoid_ = list(mk)
+                if inl_:
+                    # a marking written in place sits under the bounds test the role function would hold: leaving through the false
+                    # edge of a pure bounds test on the same operand is the one way past it
+                    for e_ in g.nodes:
+                        if e_.kind == 'edge' and SX.is_node(e_.e) and SX.cmp_parts(e_.e) and _only_bounds_text(e_.e, arg(c, 0), vec) and any(y.get('k') == 'ref' for y in SX.walk(e_.e)):
+                            rr_ = g.reachable([e_], avoid=[node])
+                            if not any(a_.id in rr_ for a_ in inl_):
+                                avoid_.append(e_)
+                ok2 = bool(mk) and g.must_follow(node, avoid_)
                 path = None
                 if not ok2:
                     p = g.witness_path(node, g.exit, avoid=mk)
@@ -436,6 +476,23 @@ def _mentions_shallow(e, name):
         if x['k'] == 'member' and x['name'] == name and SX.is_node(x['base']) and x['base']['k'] == 'this':
             return True
     return False
+
+
+def _only_bounds_text(ce, idx_expr, vec):
+    """Condition mentions only the subscript expression (any spelling of the same variable/path), integer literals and <vec>.size()."""
+    want = {x.get('id') for x in SX.walk(idx_expr) if x.get('k') == 'ref'}
+    for x in SX.walk(ce):
+        k = x['k']
+        if k == 'ref' and x.get('id') not in want and not x.get('global'):
+            return False
+        if k == 'member' and x['name'] != vec and not (SX.is_node(x['base']) and x['base']['k'] == 'this') and not any(x is y for y in SX.walk(idx_expr)) \
+                and x['name'] not in {y.get('name') for y in SX.walk(idx_expr) if y.get('k') == 'member'}:
+            return False
+        if k in ('call',):
+            return False
+        if k == 'mcall' and SX.short(x['callee']) != 'size':
+            return False
+    return True
 
 
 def _only_bounds(ce, pid, vec):
